@@ -513,7 +513,27 @@ func c15GenDir(r *rand.Rand) c15Case {
 			}
 		}
 	}
-	if r.Intn(5) != 0 {
+	// a fixed share (one directory in six) has NO .helmignore, or one without rules, and dotfiles in
+	// templates/ (editor swap files, .gitkeep, .DS_Store) at the top level and in a subchart: only the
+	// built-in rule of AddDefaults applies (seeded change C15-5)
+	noRules := r.Intn(6) == 0
+	if noRules {
+		for i := 1 + r.Intn(2); i > 0; i-- {
+			n := c15Pick(r, []string{"templates/.gitkeep", "templates/.DS_Store", "templates/.deployment.yaml.swp", "templates/.dotfile.yaml", "templates/.hidden/x.yaml"})
+			add(n, c15GenData(r, n))
+		}
+		add("templates/kept.yaml", []byte("kind: X\n"))
+		if _, ok := files["charts/sub/Chart.yaml"]; ok && r.Intn(2) == 0 {
+			add("charts/sub/templates/.gitkeep", []byte{})
+		}
+		switch r.Intn(4) {
+		case 0:
+			add(".helmignore", []byte{})
+		case 1:
+			add(".helmignore", []byte("# only comments\n\n   \n# Patterns to ignore when building packages.\n"))
+		}
+	}
+	if !noRules && r.Intn(5) != 0 {
 		var rules []string
 		for i := r.Intn(6); i > 0; i-- {
 			rules = append(rules, c15Pick(r, c15IgnoreRules))
@@ -732,6 +752,23 @@ func (p *c15) Corpus() []any {
 	// is cleaned to charts/-v1.0.0.tgz (found by the thorough tier as a model error)
 	out = append(out, c15Case{Kind: "rt", Note: "dep-named-slash", Chart: &c15Chart{Meta: md("v2", "root", "0.1.0"),
 		Deps: []*c15Chart{{Meta: md("v2", "/", "v1.0.0"), Files: []c15File{{Name: "f", Data: []byte("f")}}}}}})
+	// seeded C15-5: the built-in rule templates/.?* applies whatever .helmignore says or whether it exists:
+	// a directory WITHOUT .helmignore, with an EMPTY one, with one that has only comments; dotfiles under
+	// templates/ at the top level (excluded) and in a subchart directory (the rule is matched against
+	// the whole path: charts/sub/templates/.gitkeep stays)
+	bare := func(extra ...c15File) []c15File {
+		fs := []c15File{{Name: "Chart.yaml", Data: []byte("apiVersion: v2\nname: thechart\nversion: 0.1.0\n")},
+			{Name: "templates/deployment.yaml", Data: []byte("kind: Deployment\n")}, {Name: "templates/.gitkeep", Data: []byte{}},
+			{Name: "templates/.DS_Store", Data: []byte{0, 0, 0, 1, 'B', 'u', 'd', '1'}}, {Name: "templates/.deployment.yaml.swp", Data: []byte("b0VIM 9.0")},
+			{Name: "templates/.hidden/in-dotdir.yaml", Data: []byte("x")}, {Name: ".gitignore", Data: []byte("*.tgz\n")},
+			{Name: "charts/sub/Chart.yaml", Data: sub}, {Name: "charts/sub/templates/t.yaml", Data: []byte("t")}, {Name: "charts/sub/templates/.gitkeep", Data: []byte{}}}
+		return append(fs, extra...)
+	}
+	out = append(out, c15Case{Kind: "dir", Note: "no-helmignore", Files: bare()})
+	out = append(out, c15Case{Kind: "dir", Note: "empty-helmignore", Files: bare(c15File{Name: ".helmignore", Data: []byte{}})})
+	out = append(out, c15Case{Kind: "dir", Note: "comments-only-helmignore", Files: bare(c15File{Name: ".helmignore", Data: []byte("# Patterns to ignore when building packages.\n\n# VCS\n   \n")})})
+	out = append(out, c15Case{Kind: "dir", Note: "no-helmignore", PkgVersion: "2.0.0", Files: []c15File{{Name: "Chart.yaml", Data: []byte("apiVersion: v1\nname: thechart\nversion: 0.1.0\n")},
+		{Name: "templates/.dotfile.yaml", Data: []byte("kind: X\n")}, {Name: "templates/a.yaml", Data: []byte("a")}}})
 	// negated and directory rules on a tree with nested directories
 	out = append(out, c15Case{Kind: "dir", Files: tree("!templates/\n")})
 	out = append(out, c15Case{Kind: "dir", Files: tree("docs/a/\n!*.md\n")})
